@@ -155,10 +155,19 @@ NegPred(p) ==
     [] OTHER           -> [pn |-> "insz", sz |-> p.sz]
 
 \* sort key functions (return an Int) and group functions (return an Int)
+\* The Python twins of some of these return exotic values that are
+\* order-isomorphic (sort keys) / in bijection (group ids) with the integers
+\* used here: "big" = 2**60 + size, "biginf" = the same with +inf for size 0
+\* (C18: any sort keys), "fs2" = frozenset({size % 2}), "mix2" = None / 'odd'
+\* (C18: arbitrary hashable group ids, not totally ordered, not comparable).
 KeyFn(kf, x) == CASE kf = "id"    -> Size(x)
                   [] kf = "neg"   -> 0 - Size(x)
                   [] kf = "mod2"  -> Size(x) % 2
                   [] kf = "const" -> 7
+                  [] kf = "big"   -> Size(x)
+                  [] kf = "biginf" -> IF Size(x) = 0 THEN 1000000 ELSE Size(x)
+                  [] kf = "fs2"   -> Size(x) % 2
+                  [] kf = "mix2"  -> Size(x) % 2
                   [] OTHER        -> 0
 
 -----------------------------------------------------------------------------
